@@ -1,8 +1,13 @@
-SPECIFICATION Spec
+SPECIFICATION GenSpec
 CONSTANTS
   Paths = {"p1", "p2"}
   MaxHist = 3
   DropTables = TRUE
   SaveAll = TRUE
+  ReadBlock = 0
+  SizeSet = {1, 2, 3}
+  Rewrites = FALSE
+  Shape = "all"
+  Reuse = "off"
 CONSTRAINT GenBfs
 CHECK_DEADLOCK FALSE
